@@ -222,9 +222,65 @@ pub fn gen_c07(args: &Args) {
             json!({"out": o.out, "r": res_json(&o), "ms": ms as i64, "msg": o.msg}),
         ]));
     }
+    // threshold days: at polar and sub-polar latitudes, the days on which an event starts / stops existing
+    // (found by scanning a year with policy None), +-2 days, under every policy
+    let mut threshold_calls = 0;
+    for _ in 0..args.num("threshold_sites", 60) {
+        let mut site = rand_site(&mut r, 899_000, 2);
+        site.lat = *r_pick(&mut r, &[665_600i64, 670_000, 682_000, 695_000, 720_000, 750_000, 780_000, 825_018, 850_000, 880_000, 895_000, 640_000])
+            * if r.chance(1, 2) { 1 } else { -1 } + r.range(-3000, 3000);
+        site.gmt = natural_gmt(site.lon);
+        let y = r.range(1600, 2399) as i32;
+        let mut base = P::of_method(r.range(1, 8) as usize);
+        base.pol = 0;
+        base.rnd = 0;
+        let mut prev: Option<[bool; 7]> = None;
+        let mut flips: Vec<NaiveDate> = Vec::new();
+        let mut d = ymd(y, 1, 1);
+        while d.year() == y {
+            let o = raw_call(&site, d, &base);
+            let v: [bool; 7] = std::array::from_fn(|i| o.t[i] >= 0);
+            if let Some(pv) = prev {
+                if pv != v {
+                    flips.push(d);
+                }
+            }
+            prev = Some(v);
+            d = d.succ_opt().unwrap();
+        }
+        for f in flips.into_iter().take(8) {
+            for dd in -2i64..=2 {
+                let date = f + chrono::Duration::days(dd);
+                for pol in 0..15usize {
+                    let mut p = base.clone();
+                    p.pol = pol;
+                    p.nl = *r_pick(&mut r, &[485_000i64, -485_000, 0, 900_000, 700_000]);
+                    p.rnd = r.range(0, 3) as usize;
+                    if r.chance(1, 4) {
+                        p.fi = r.range(0, 180) * 60;
+                    }
+                    if r.chance(1, 4) {
+                        p.ii = r.range(0, 180) * 60;
+                    }
+                    let t0 = Instant::now();
+                    let o = call(&site, date, &p);
+                    let ms = t0.elapsed().as_millis();
+                    slowest = slowest.max(ms);
+                    if o.out == "panic" {
+                        panics += 1;
+                    }
+                    threshold_calls += 1;
+                    w.emit(merge(&[
+                        base_event("c07", &site, date, &p),
+                        json!({"out": o.out, "r": res_json(&o), "ms": ms as i64, "msg": o.msg}),
+                    ]));
+                }
+            }
+        }
+    }
     let session = session_flush(&mut w);
     let k = w.finish();
-    println!("{}", json!({"session": session, "events": k, "slowest_ms": slowest as i64, "panics": panics}));
+    println!("{}", json!({"session": session, "events": k, "slowest_ms": slowest as i64, "panics": panics, "threshold_day_calls": threshold_calls}));
 }
 
 // ------------------------------------------------------------------------------------------
